@@ -383,13 +383,25 @@ func (obj *Package) DefConst(name string, value Object, doc string) (vv *VarVal)
 		if vv.Const && ObjectEqual(vv.Val, value) {
 			return vv
 		}
-		PackagePanic(NewScope(), 0, obj, "%s is a constant and thus can't be changed", name)
+		if vv.Const || vv.Val != Unbound {
+			PackagePanic(NewScope(), 0, obj, "%s is a constant and thus can't be changed", name)
+		}
 	}
 	if obj.Locked {
 		PackagePanic(NewScope(), 0, obj, "Package %s is locked thus no new constants can be set.", obj.Name)
 	}
-	vv = &VarVal{Val: value, Const: true, Pkg: obj, name: name, Doc: doc}
-	obj.vars[name] = vv
+	if vv != nil {
+		// An unbound placeholder made when code that refers to the
+		// variable was compiled before the constant was defined. The
+		// compiled code holds on to the placeholder so fill it in.
+		vv.Val = value
+		vv.Const = true
+		vv.Pkg = obj
+		vv.Doc = doc
+	} else {
+		vv = &VarVal{Val: value, Const: true, Pkg: obj, name: name, Doc: doc}
+		obj.vars[name] = vv
+	}
 	obj.mu.Unlock()
 	unlock = false
 	callSetHooks(obj, name)
